@@ -412,7 +412,7 @@ func runFsSeq(p *FsPlan, system string, keepLog bool) fsSeqResult {
 		return res
 	}
 	defer env.cleanup()
-	s := simrt.New(simrt.Config{Tape: simrt.Replay(nil, nil), KeepLog: keepLog, MaxSteps: 5000000})
+	s := simrt.New(simrt.Config{DaemonsOK: true, Tape: simrt.Replay(nil, nil), KeepLog: keepLog, MaxSteps: 5000000})
 	simunix.Attach(s, env.k)
 	chk := &fsChecker{m: model.NewFS(), files: map[int]filesys.File{}, open: map[filesys.File]int{}, system: system, probes: res.probes, prefix: "fs.seq"}
 	r := s.Run(func() {
